@@ -11,6 +11,8 @@ import DimodProofs.AnnealColor
 import DimodProofs.AnnealSweep
 import DimodProofs.EnumComposite
 import DimodProofs.AnnealClass
+import DimodProofs.EnumFixedVars
+import DimodProofs.EnumExact
 
 /-! # C07 — samplers and composites report each row's true energy over the right variables
 
@@ -485,5 +487,58 @@ example :
     flippedIn J (some 1) (diffH h sp0) (fun _ => -100) sp0 [.str "a", .str "c"] = [.str "a", .str "c"] ∧
     isingE h J (dictGet (classStep J (some 1) (diffH h sp0) (fun _ => -100) sp0 [.str "a", .str "c"])) - isingE h J (dictGet sp0) = -8 ∧
     diffH h sp0 (.str "a") + diffJ J sp0 (.str "a") = -4 := by decide +kernel
+
+/-! ## round 7: the all-fixed branch of PolyFixedVariableComposite is over the problem's variables -/
+
+/-- `PolyFixedVariableComposite`, child answer empty, `fixed_variables` non-empty, `not poly_copy.variables`: the answer is
+    exactly one row, its columns are the fixed variables with their values, its energy is the submitted polynomial's — and
+    every variable of the submitted polynomial is among those columns (no variable left ⇒ everything is fixed) -/
+theorem polyfixed_all_fixed_row (child : Poly → List Row) (p : Poly) (fx : List (Label × Rat))
+    (hempty : (child (fixVariables true p fx)).length = 0) (hfx : fx ≠ [])
+    (hno : polyNoVars (fixVariables true p fx) = true) :
+    (polyFixedFull child p (some fx)).map (fun r => (r.x, r.energy)) = [(fx, polyEnergy (Row.val ⟨fx, 0⟩) p)] ∧
+    ∀ t ∈ p, ∀ l ∈ t.1, l ∈ fx.map (·.1) := by
+  refine ⟨?_, noVars_all_fixed p fx hno⟩
+  have h1 : ¬ (child (fixVariables true p fx)).length ≠ 0 := by simp [hempty]
+  have h2 : (!fx.isEmpty && polyNoVars (fixVariables true p fx)) = true := by
+    cases fx with
+    | nil => exact absurd rfl hfx
+    | cons a t => simpa using hno
+  unfold polyFixedFull
+  simp only [if_neg h1, h2, if_true, List.map_cons, List.map_nil]
+  rfl
+
+example : polyNoVars (fixVariables true [([.str "a"], 4), ([.str "a", .str "b"], -2), ([], 3)] [(.str "a", 1), (.str "b", -1)]) = true := by
+  decide +kernel
+
+/-! ## round 7: ExactSolver.sample / ExactPolySolver.sample_poly as coded (`exactRows`) -/
+
+/-- **ExactPolySolver.sample_poly as coded** (`ExactSolver().sample(polynomial)`: empty answer without variables, otherwise the
+    `_graycode` rows — `2·x − 1` for SPIN — under `list(polynomial.variables)` with `from_samples_bqm` energies): `2^n` rows, no
+    sample twice; every row over exactly the variables in that order, every value in the vartype's domain, the reported energy is
+    the submitted polynomial's energy of the row; and every assignment of the variables is returned -/
+theorem exact_poly_solver_rows (spin : Bool) (vars : List Label) (p : Poly) :
+    (vars = [] → exactPolySolver spin vars p = []) ∧
+    (vars ≠ [] → (exactPolySolver spin vars p).length = 2 ^ vars.length) ∧
+    ((exactPolySolver spin vars p).map (·.x)).Nodup ∧
+    (∀ r ∈ exactPolySolver spin vars p,
+      r.x.map (·.1) = vars ∧ (∀ q ∈ r.x, InVartype spin q.2) ∧ r.energy = polyEnergy r.val p) ∧
+    (vars ≠ [] → ∀ vals : List Rat, vals.length = vars.length → (∀ v ∈ vals, InVartype spin v) →
+      ∃ r ∈ exactPolySolver spin vars p, r.x = vars.zip vals) :=
+  exactRows_spec spin vars (fun x => polyEnergy x p)
+
+/-- **ExactSolver.sample as coded**: the same for a binary quadratic model -/
+theorem exact_solver_rows (vars : List Label) (m : Bqm) :
+    (vars = [] → exactBqmSolver vars m = []) ∧
+    (vars ≠ [] → (exactBqmSolver vars m).length = 2 ^ vars.length) ∧
+    ((exactBqmSolver vars m).map (·.x)).Nodup ∧
+    (∀ r ∈ exactBqmSolver vars m,
+      r.x.map (·.1) = vars ∧ (∀ q ∈ r.x, InVartype m.spin q.2) ∧ r.energy = m.energy r.val) ∧
+    (vars ≠ [] → ∀ vals : List Rat, vals.length = vars.length → (∀ v ∈ vals, InVartype m.spin v) →
+      ∃ r ∈ exactBqmSolver vars m, r.x = vars.zip vals) :=
+  exactRows_spec m.spin vars m.energy
+
+example : (exactPolySolver true [.str "a", .str "b"] [([.str "a"], 4), ([.str "a", .str "b"], -2), ([], 3)]).map (fun r => (r.x.map (·.2), r.energy))
+    = [([-1, -1], -3), ([1, -1], 9), ([1, 1], 5), ([-1, 1], 1)] := by decide +kernel
 
 end C07
